@@ -41,6 +41,8 @@ NOTES = {
  "C16-m5": "needed a union that is reset and used again, compared with a fresh one", "C16-m6": "needed the union fed by move compared with the union fed by reference",
  "C17-m5": "needed the `one_value_then_buffered` scenario (a compress point while the digest holds one value)",
  "C19-m5": "needed union k up to 64 in the heap world (arrays that have grown before reset)", "C19-m6": "needed the `copy_then_continue_both` step (source and copy fed the same batch under the same draws stay equal)",
+ "C10-m3": "caught by chance at first; now the CPC store adapter tops batches up to the code-table boundaries (3k/4, k/2, 3k/32, k)",
+ "C11-m8": "needs an HLL_4 image with an exception table, which only long streams build at small lg_k: caught in one of three runs of the quick tier (see DESIGN 12, withdrawn spike items)",
  # round 5
  "C08-m8": "needed the rule 'each half-width of REQ's published interval only shrinks towards the accurate end' (the coverage classes are recorded findings)",
  "C09-m8": "needed string items that carry non-text bytes (0xFF, 0x80, 0x00)",
